@@ -5,7 +5,7 @@
    evaluators versus Coq's exact evaluation of these definitions). *)
 From Coq Require Import Reals List Arith QArith.
 From Coquelicot Require Import Coquelicot.
-From PV Require Import Assembly Expr ExprProofs Derivs DerivsProofs.
+From PV Require Import Assembly Expr ExprProofs ExprEval Derivs DerivsProofs.
 Open Scope R_scope.
 
 (* the differentiator is correct for every expression of the grammar at every point where it is defined *)
@@ -48,7 +48,21 @@ Theorem C03_ode_is_C01 : forall r (m : emodel) i,
   ev r (eode m i) = ode_vec R 0 1 Rplus Rmult Rminus Ropp (rmodel r m) i.
 Proof. exact ev_eode. Qed.
 
+(* the exact evaluator of the correspondence check is sound: a value it returns is the real value of the
+   expression at that rational point (oracle entries assumed true function values; none needed for rational rates) *)
+Theorem C03_eval_sound : forall o, truthful o -> forall r e q, evO r o e = Some q ->
+  ok (renv r) e /\ ev (renv r) e = QcR q.
+Proof. exact evO_sound. Qed.
+(* hence: a Jacobian entry Coq computes and compares with pygom IS the partial derivative at that point *)
+Theorem C03_jac_value : forall o, truthful o -> forall (m : emodel) r i j q0 q,
+  evO r o (eode m i) = Some q0 -> evO r o (jac m i j) = Some q ->
+  is_derive (fun v => ev (upd (renv r) j v) (eode m i)) (renv r j) (QcR q).
+Proof. intros o Ho m r i j q0 q H0 H.
+  destruct (evO_sound o Ho r _ _ H0) as [Hok _]. destruct (evO_sound o Ho r _ _ H) as [_ E].
+  rewrite <- E. apply jac_correct, Hok. Qed.
+
 Print Assumptions C03_D_correct.
+Print Assumptions C03_jac_value.
 Print Assumptions C03_diff_jac.
 Print Assumptions C03_F.
 Print Assumptions C03_ode_is_C01.
